@@ -97,34 +97,54 @@ package endpoint
 //@   requires epWF(m)
 //@   panics any
 //@   witness stopAt int = jj
+//@   witness target map = tgt
+//@   witness touched set = tch
+//@   witness who map = wh
 //@   label C31.deliver.count
 //@   ensures 0 <= dlvK() && dlvK() <= old(len(m.comp.State.AssembledMsgs))
 //@   label C31.deliver.pop
 //@   ensures ref(m.comp.State.AssembledMsgs) == old(ref(m.comp.State.AssembledMsgs)) && off(m.comp.State.AssembledMsgs) == old(off(m.comp.State.AssembledMsgs)) + dlvK() && len(m.comp.State.AssembledMsgs) == old(len(m.comp.State.AssembledMsgs)) - dlvK()
 //@   label C31.deliver.inorder
-//@   ensures forall n in 0..dlvK() :: deliveredMeta(m, old(dlvN) + n, n)
+//@   ensures forall k int :: old(dlvN) <= k && k < dlvN ==> deliveredMeta(m, k, k - old(dlvN))
 //@   label C31.deliver.target
-//@   ensures forall n in 0..dlvK() :: 0 <= tgt[n] && tgt[n] < len(m.devicePorts) && dlvTo[old(dlvN) + n] == ifaceval(m.devicePorts[tgt[n]])
+//@   ensures forall k int :: old(dlvN) <= k && k < dlvN ==> 0 <= target[k] && target[k] < len(m.devicePorts) && dlvTo[k] == ifaceval(m.devicePorts[target[k]])
 //@   label C31.deliver.named
-//@   ensures forall n in 0..dlvK() :: firstNamed(m, tgt[n], old(m.comp.State.AssembledMsgs[n].Dst))
-//@   label C31.deliver.stop
-//@   ensures dlvK() < old(len(m.comp.State.AssembledMsgs)) ==> 0 <= stopAt && stopAt < len(m.devicePorts) && !canDlv[ifaceval(m.devicePorts[stopAt])] && firstNamed(m, stopAt, old(m.comp.State.AssembledMsgs[dlvK()].Dst))
+//@   ensures forall k int :: old(dlvN) <= k && k < dlvN ==> firstNamed(m, target[k], old(m.comp.State.AssembledMsgs[k - old(dlvN)].Dst))
+//@   label C31.deliver.stop.range
+//@   ensures dlvK() < old(len(m.comp.State.AssembledMsgs)) ==> 0 <= stopAt && stopAt < len(m.devicePorts)
+//@   label C31.deliver.stop.full
+//@   ensures dlvK() < old(len(m.comp.State.AssembledMsgs)) ==> !canDlv[ifaceval(m.devicePorts[stopAt])]
+//@   label C31.deliver.stop.name
+//@   ensures dlvK() < old(len(m.comp.State.AssembledMsgs)) ==> rob.portRemote(m.devicePorts[stopAt]) == old(m.comp.State.AssembledMsgs)[dlvK()].Dst
+//@   label C31.deliver.stop.first
+//@   ensures dlvK() < old(len(m.comp.State.AssembledMsgs)) ==> (forall j in 0..stopAt :: rob.portRemote(m.devicePorts[j]) != old(m.comp.State.AssembledMsgs)[dlvK()].Dst)
 //@   label C31.deliver.log
 //@   ensures dlvLogKept()
 //@   label C31.deliver.others
-//@   ensures forall p int :: (forall n in 0..dlvK() :: dlvTo[old(dlvN) + n] != p) ==> (canDlv[p] <==> old(canDlv)[p]) && inTyp[p] == old(inTyp)[p] && inVal[p] == old(inVal)[p]
+//@   ensures (forall p int :: !touched[p] ==> (canDlv[p] <==> old(canDlv)[p]) && inTyp[p] == old(inTyp)[p] && inVal[p] == old(inVal)[p]) && (forall p int :: touched[p] ==> old(dlvN) <= who[p] && who[p] < dlvN && dlvTo[who[p]] == p)
 //@   label C31.deliver.progress
 //@   ensures result <==> dlvK() > 0
 //@   assigns m.comp.State.AssembledMsgs, canDlv, dlvN, dlvTyp, dlvVal, dlvTo, inTyp, inVal
 //@   loop 0: ghost tgt = mapof(j, 0)
-//@   loop 0: backedge tgt = upd(tgt, athead(i), jj)
+//@   loop 0: backedge tgt = upd(tgt, dlvN - 1, jj)
+//@   loop 0: ghost tch = emptyset
+//@   loop 0: backedge tch = upd(tch, dlvTo[dlvN - 1], true)
+//@   loop 0: ghost wh = mapof(j, 0)
+//@   loop 0: backedge wh = upd(wh, dlvTo[dlvN - 1], dlvN - 1)
 //@   loop 0: invariant 0 <= i && i <= len(m.comp.State.AssembledMsgs) && numDelivered == i && dlvN == old(dlvN) + i && (madeProgress <==> i > 0)
 //@   loop 0: invariant ref(m.comp.State.AssembledMsgs) == old(ref(m.comp.State.AssembledMsgs)) && off(m.comp.State.AssembledMsgs) == old(off(m.comp.State.AssembledMsgs)) && len(m.comp.State.AssembledMsgs) == old(len(m.comp.State.AssembledMsgs))
-//@   loop 0: invariant forall n in 0..i :: deliveredMeta(m, old(dlvN) + n, n)
-//@   loop 0: invariant forall n in 0..i :: 0 <= tgt[n] && tgt[n] < len(m.devicePorts) && dlvTo[old(dlvN) + n] == ifaceval(m.devicePorts[tgt[n]])
-//@   loop 0: invariant forall n in 0..i :: firstNamed(m, tgt[n], old(m.comp.State.AssembledMsgs[n].Dst))
+//@   loop 0: invariant forall k int :: old(dlvN) <= k && k < dlvN ==> hastype(dlvMsg(k), "packetization.AssembledMsg") && dlvVal[k] <= allocTop
+//@   loop 0: invariant forall k int :: old(dlvN) <= k && k < dlvN ==> as(dlvMsg(k), "packetization.AssembledMsg").MsgMeta.ID == old(m.comp.State.AssembledMsgs[k - old(dlvN)].ID)
+//@   loop 0: invariant forall k int :: old(dlvN) <= k && k < dlvN ==> as(dlvMsg(k), "packetization.AssembledMsg").MsgMeta.Src == old(m.comp.State.AssembledMsgs[k - old(dlvN)].Src)
+//@   loop 0: invariant forall k int :: old(dlvN) <= k && k < dlvN ==> as(dlvMsg(k), "packetization.AssembledMsg").MsgMeta.Dst == old(m.comp.State.AssembledMsgs[k - old(dlvN)].Dst)
+//@   loop 0: invariant forall k int :: old(dlvN) <= k && k < dlvN ==> as(dlvMsg(k), "packetization.AssembledMsg").MsgMeta.RspTo == old(m.comp.State.AssembledMsgs[k - old(dlvN)].RspTo)
+//@   loop 0: invariant forall k int :: old(dlvN) <= k && k < dlvN ==> as(dlvMsg(k), "packetization.AssembledMsg").MsgMeta.TrafficClass == old(m.comp.State.AssembledMsgs[k - old(dlvN)].TrafficClass)
+//@   loop 0: invariant forall k int :: old(dlvN) <= k && k < dlvN ==> as(dlvMsg(k), "packetization.AssembledMsg").MsgMeta.TrafficBytes == old(m.comp.State.AssembledMsgs[k - old(dlvN)].TrafficBytes)
+//@   loop 0: invariant forall k int :: old(dlvN) <= k && k < dlvN ==> 0 <= tgt[k] && tgt[k] < len(m.devicePorts) && dlvTo[k] == ifaceval(m.devicePorts[tgt[k]])
+//@   loop 0: invariant forall k int :: old(dlvN) <= k && k < dlvN ==> firstNamed(m, tgt[k], old(m.comp.State.AssembledMsgs[k - old(dlvN)].Dst))
 //@   loop 0: invariant dlvLogKept()
-//@   loop 0: invariant forall p int :: (forall n in 0..i :: dlvTo[old(dlvN) + n] != p) ==> (canDlv[p] <==> old(canDlv)[p]) && inTyp[p] == old(inTyp)[p] && inVal[p] == old(inVal)[p]
+//@   loop 0: invariant forall p int :: !tch[p] ==> (canDlv[p] <==> old(canDlv)[p]) && inTyp[p] == old(inTyp)[p] && inVal[p] == old(inVal)[p]
+//@   loop 0: invariant forall p int :: tch[p] ==> old(dlvN) <= wh[p] && wh[p] < dlvN && dlvTo[wh[p]] == p
 //@   loop 1: ghost jj = 0
 //@   loop 1: backedge jj = jj + 1
 //@   loop 1: invariant dstPort == nil && jj == rangeindex + 1 && -1 <= rangeindex && rangeindex < len(m.devicePorts)
@@ -173,6 +193,10 @@ package endpoint
 //@   ensures len(m.comp.State.AssemblingMsgs) >= old(len(m.comp.State.AssemblingMsgs)) && (forall j in 0..old(len(m.comp.State.AssemblingMsgs)) :: sameIdentity(m, j, j))
 //@   label C31.recv.charged
 //@   ensures forall n in 0..recvK(m) :: 0 <= pos[n] && pos[n] < len(m.comp.State.AssemblingMsgs) && m.comp.State.AssemblingMsgs[pos[n]].MsgID == flitAt(fT, fV, n).Msg.ID
+//@   label C31.recv.firstmatch
+//@   ensures forall n in 0..recvK(m) :: forall j in 0..pos[n] :: m.comp.State.AssemblingMsgs[j].MsgID != flitAt(fT, fV, n).Msg.ID
+//@   label C31.recv.distinct
+//@   ensures old(asmDistinct(m)) ==> asmDistinct(m)
 //@   label C31.recv.cum
 //@   ensures cumOK(cum, pos, recvK(m))
 //@   label C31.recv.arrived
@@ -199,11 +223,15 @@ package endpoint
 //@   loop 0: invariant len(m.comp.State.AssemblingMsgs) >= old(len(m.comp.State.AssemblingMsgs)) && len(m.comp.State.AssemblingMsgs) <= old(len(m.comp.State.AssemblingMsgs)) + i
 //@   loop 0: invariant forall j in 0..old(len(m.comp.State.AssemblingMsgs)) :: sameIdentity(m, j, j)
 //@   loop 0: invariant forall n in 0..i :: 0 <= pos[n] && pos[n] < len(m.comp.State.AssemblingMsgs) && m.comp.State.AssemblingMsgs[pos[n]].MsgID == flitAt(fT, fV, n).Msg.ID
+//@   loop 0: invariant forall n in 0..i :: forall j in 0..pos[n] :: m.comp.State.AssemblingMsgs[j].MsgID != flitAt(fT, fV, n).Msg.ID
+//@   loop 0: invariant old(asmDistinct(m)) ==> asmDistinct(m)
 //@   loop 0: invariant cumOK(cum, pos, i)
 //@   loop 0: invariant forall j int :: 0 <= cnt(cum, i, j) && cnt(cum, i, j) <= i
+//@   loop 0: invariant forall j int :: j < 0 || j >= len(m.comp.State.AssemblingMsgs) ==> cnt(cum, i, j) == 0
 //@   loop 0: invariant forall j in 0..len(m.comp.State.AssemblingMsgs) :: m.comp.State.AssemblingMsgs[j].NumFlitArrived == (j < old(len(m.comp.State.AssemblingMsgs)) ? old(m.comp.State.AssemblingMsgs[j].NumFlitArrived) : 0) + cnt(cum, i, j)
 //@   loop 0: invariant forall j in old(len(m.comp.State.AssemblingMsgs))..len(m.comp.State.AssemblingMsgs) :: 0 <= mk[j] && mk[j] < i && pos[mk[j]] == j && createdFrom(m, j, fT, fV, mk[j])
 //@   loop 1: invariant assemblingIdx == -1 && -1 <= rangeindex && rangeindex < len(m.comp.State.AssemblingMsgs)
+//@   loop 1: invariant forall j in 0..rangeindex + 1 :: m.comp.State.AssemblingMsgs[j].MsgID != flit.Msg.ID
 
 // ================= outgoing side =================
 // math.Ceil is a pure function of its argument; floating point values are opaque tokens in the engine, so nothing is assumed
